@@ -168,6 +168,7 @@ macro_rules! scenarios {
             "hash_stream" => $f(&scen::s4_hash_stream::S4, $($arg),*),
             "mem" => $f(&scen::s5_mem::S5, $($arg),*),
             "counters" => $f(&scen::s6_counters::S6, $($arg),*),
+            "interleave" => $f(&scen::s7_interleave::S7, $($arg),*),
             "chacha_stream@hosts" => $f(&scen::s3_hosts::Hosts { inner: scen::s1_chacha_stream::S1, name: "chacha_stream@hosts" }, $($arg),*),
             "chacha_block@hosts" => $f(&scen::s3_hosts::Hosts { inner: scen::s2_chacha_block::S2, name: "chacha_block@hosts" }, $($arg),*),
             "hash_stream@hosts" => $f(&scen::s3_hosts::Hosts { inner: scen::s4_hash_stream::S4, name: "hash_stream@hosts" }, $($arg),*),
@@ -217,6 +218,13 @@ fn main() {
         "run" => {
             let name = arg(&args, "scenario", "").to_string();
             scenarios!(name.as_str(), do_run, &args)
+        }
+        "isolate" => {
+            let mut text = String::new();
+            std::io::Read::read_to_string(&mut std::io::stdin(), &mut text).expect("stdin");
+            let req = J::parse(&text).expect("parse isolate request");
+            println!("{}", scen::s7_interleave::isolate_child(&req).to_string());
+            0
         }
         "stream" => do_stream(&args),
         "info" => {
